@@ -173,7 +173,7 @@ PROPS['C07'].update({
                    'BOUNDED (bc ops): the point-wise law h(x) = a(x) op b(x) itself (it depends on the soundness of the LP oracle), the other ownership variants (forwarding impls), negation and the tree/affine mixed forms (closures over terminals_mut). The lifted law on trees for all four operators, every ownership variant, negation and the tree/affine mixed forms through generic_composition_inplace and unary_op_*.'),
     'design_ref': 'DESIGN.md §4 C07',
     'assumptions': ASSUME_COMMON + ASSUME_ND + ASSUME_BC + ['rule T1 as for C02',
-        'unit pwl_ops_tree: rule M1 (the body of impl_op_schema! is verified once per operator with $trt / $op / $name substituted), rule G1 (generic_composition_inplace instantiated with that schema and NoOpVis), `mut self` is written `let mut __s = self` (Verus lacks `mut self`), the schema explore (generate_infeasible!("infeasible")) is the call rhs.is_edge_feasible(parent, child) with the ASSUMED contract `parent == 0 ==> true`; a ghost argument carries the common output dimension; remove_child without its arena-size precondition as in C04'],
+        'unit pwl_ops_tree: rule M1 (the body of impl_op_schema! is verified once per operator with $trt / $op / $name substituted), rule G1 (generic_composition_inplace instantiated with that schema and NoOpVis), `mut self` is written `let mut __s = self` (Verus lacks `mut self`), the schema explore (generate_infeasible!("infeasible")) is extracted from the macro arm and calls is_edge_feasible with the contract proved in unit pwl_feasible; a ghost argument carries the common output dimension; remove_child without its arena-size precondition as in C04'],
 })
 
 ASSUME_PWL = [
@@ -258,7 +258,7 @@ PROPS['C04'].update({
                    'BOUNDED (bc histories): random operation histories over all transformations from every constructor, well-formedness (incl. common output dimension) and panic freedom after every step.'),
     'design_ref': 'DESIGN.md §4 C04',
     'assumptions': ASSUME_COMMON + ASSUME_SLAB + ASSUME_ND + ASSUME_PWL + ASSUME_BC + ['see C02 (unit pwl_compose) and C08 (unit pwl_reduce) for the rewrite rules and trusted helpers of those units',
-        'unit pwl_compose_pruned: AffTree::is_edge_feasible is an ASSUMED contract (LP based): `parent_idx == 0 ==> true`, any answer otherwise; the receiver has its root at arena index 0 (true for every tree built by the library constructors); Tree::remove_child is used with the contract proved in unit tree_graph MINUS its arena-size precondition (i32 deletion counter): assumed fewer than 2^31 nodes; rule G1 as for C02 with C = FunctionCompositionInfeasible'],
+        'unit pwl_compose_pruned: AffTree::is_edge_feasible is used with the contract PROVED on its real body in unit pwl_feasible (root shortcut `parent_idx == 0 ==> true`; the LP layer behind it is an oracle, so any answer otherwise); the receiver has its root at arena index 0 (true for every tree built by the library constructors); Tree::remove_child is used with the contract proved in unit tree_graph MINUS its arena-size precondition (i32 deletion counter): assumed fewer than 2^31 nodes; rule G1 as for C02 with C = FunctionCompositionInfeasible'],
 })
 
 PROPS['C01'].update({
@@ -310,5 +310,24 @@ NOT_APPLICABLE = {
     'C10': 'correctness of the external LP solver (minilp simplex) seen through a 20-line adapter: no contract within reach can decide it; a contract on solve_linprog would have to be assumed',
     'C19': 'fmt::Formatter / string output: Verus has no model of core::fmt output or str contents; deciding it means parsing output back, which is testing, not contract verification',
 }
+
+# the decision logic around the LP solver is under contract since unit pwl_feasible (the LP layer, the tolerance test and the repair heuristic stay oracles)
+_FEAS_ASSUME = [
+    'unit pwl_feasible: Polytope::status (LP solver, C10), Polytope::contains (tolerance membership) and AffTree::mirror_points (numeric repair) are ORACLES: external_body with uninterpreted results (lp_status, contains_tol; mirror_points: any answer); polyhedral_path_characterization (uses the dropped RefCell scratch buffer) is a named uninterpreted function of tree and path',
+    'rule D7: the PerformanceCounter increments (`counter.x += 1`, statistics only) are dropped from phase_inh / phase_two; rule I15 / I16: `solution.iter().filter(|p| hyperplane.contains(p)).map(..).collect_vec()` and `wit.iter().any(|p| poly.contains(p))` are the verified helpers filter_contained / any_contained; `solution.clone().insert_axis(Axis(1))` and `val.t().row(0).to_owned()` are spec-less trusted helpers (their results are re-checked with contains before use); `node_value(i)` is read as tree_node(i).value (rule N2)',
+]
+_FEAS_TEXT = ('PROVED on the real branching of is_edge_feasible / phase_two / phase_inh (unit pwl_feasible; LP solver, tolerance test and repair heuristic as arbitrary oracles): an edge or node is declared infeasible ONLY on an Infeasible verdict '
+              '(cached Infeasible state of the node or its parent, or the LP answer Infeasible) - LP Error, Unbounded and Optimal answers with ANY witness, however displaced, never prune; phase_two returns Infeasible iff the LP says Infeasible, Indeterminate on an LP Error, '
+              'and caches a witness only after that very point passed `contains` for that very polytope (the LP point or its repaired version); phase_inh only passes on parent witnesses that passed `contains` for the new half-space; edges leaving node 0 are always feasible. ')
+for pid, lvl in (('C11', 'other'), ('C05', 'other'), ('C03', 'other')):
+    PROPS[pid]['units'] = ['pwl_feasible']
+    PROPS[pid]['level'] = lvl
+    PROPS[pid]['assumptions'] = ASSUME_COMMON + ASSUME_SLAB + ASSUME_ND + ASSUME_PWL + PROPS[pid]['assumptions'] + _FEAS_ASSUME
+PROPS['C11']['technique'] = 'Verus contracts on the extracted decision logic around the LP solver (is_edge_feasible, phase_two, phase_inh: faults can only lead to less pruning - for every answer of the LP / tolerance / repair oracles, not only single faults) + bounded fault enumeration (bc faults) with the cfg hook for the tree-level consequences'
+PROPS['C11']['level_text'] = 'Mixed. ' + _FEAS_TEXT + 'This holds for every answer pattern of the oracles, i.e. for any number and kind of LP faults. BOUNDED (bc faults, fault enumeration with the cfg hook): the tree-level consequences through infeasible_elimination / pruned composition - no panic, same function, sound caches, only less pruning - for every single fault position and kind. ' + PROPS['C11']['level_text']
+PROPS['C05']['technique'] = 'Verus contracts on the extracted witness-producing functions (phase_two, phase_inh: every cached witness passed `contains` for the polytope it is cached for) + bounded replay (bc prune, bc faults[cache]) of the cache contract on whole trees'
+PROPS['C05']['level_text'] = 'Mixed. ' + _FEAS_TEXT + 'BOUNDED (bc prune / faults): that the polytope handed to these functions is the path polytope of the node (PolyhedraGen part: see C09), infeasible marks only on regions without interior, mirror_points results lie in the polytope. ' + PROPS['C05']['level_text']
+PROPS['C03']['technique'] = 'Verus contracts on the extracted pruning oracle (is_edge_feasible) and LP phase (phase_two): pruning decisions come only from Infeasible verdicts + bounded replay (bc prune) of function preservation through infeasible_elimination and compose::<true,_>'
+PROPS['C03']['level_text'] = 'Mixed. ' + _FEAS_TEXT + 'NOT proved: that removing what these verdicts mark preserves the function (needs the soundness of the LP answer and the simulation argument for the traversal that mutates the tree: bounded). ' + PROPS['C03']['level_text']
 
 HOOK_COMMITS = ['0e11e31']   # /repo: verif hook: cfg(affinitree_verif) LP fault plan consulted at the top of Polytope::solve_linprog
